@@ -26,7 +26,7 @@ _MIXED = ['a', 7, (1, 2), '', 3.5, ('k',), 0, 'Q', 11, (0,), 'mm', -2]
 
 
 def _numstr(j):
-    return (2000 + j if j % 4 == 0 else j + 0.5) if j % 2 == 0 else f'p{j}'
+    return (2000 + j if j % 4 == 0 else j + 0.5) if j % 2 == 0 else f's{j}'
 
 
 def make_span(spec):
